@@ -41,9 +41,9 @@ type Options struct {
 	Seed     int64
 	Fixtures string
 	WorkDir  string
-	Only     map[string]bool // replay: execute only the inputs with these ids
+	Only     map[string]bool   // replay: execute only the inputs with these ids
 	Override map[string][]byte // replay: exact bytes for mutation inputs (id -> content)
-	Parts    map[string]bool // which parts to run (empty = all)
+	Parts    map[string]bool   // which parts to run (empty = all)
 }
 
 type Driver struct {
